@@ -110,6 +110,8 @@ def to_val(x):
         return Val.VStr(zseq(x))
     if type(x) is tuple:
         return Val.VTuple(to_vl(x))
+    if type(x) is list:
+        return Val.VTuple(to_vl(x))      # a freshly built list used as a value (slot lists): its current contents
     if isinstance(x, SVL):
         return Val.VTuple(x.z)
     if isinstance(x, HeapRef):
